@@ -288,6 +288,8 @@ def add_coalescent(parser):
 
 
 def check_arguments(arg, parser):
+    if arg.birth_death == "bdsk" and arg.grid is None:
+        parser.error("bdsk birth-death model requires the grid argument")
     if arg.coalescent in COALESCENT_PIECEWISE:
         piecewise_grid = COALESCENT_PIECEWISE.copy()
         piecewise_grid.remove("skyride")
